@@ -233,7 +233,18 @@ class Run:
                 elif k == "add":
                     m, pi, conds = self.models[op["model"]]
                     c = self._cond(op["cond"], op["idx"])
-                    m.add_conditional(c)
+                    try:
+                        m.add_conditional(c)
+                    except Exception:  # noqa: BLE001
+                        if op.get("rollback") and S.fired.get("interrupt", 0) > fired0:
+                            # the add was interrupted; the caller rolls back by removing the index, after
+                            # which the model must again equal a fresh compilation of what it held before
+                            S.probe("interrupted_add_rolled_back")
+                            m.remove_conditional(int(op["idx"]))
+                            self.check_compilations(i, op["model"], False)
+                            S.trace("step", i, k, len(self.viol))
+                            continue
+                        raise
                     conds[int(op["idx"])] = (c, op["cond"])
                     if not op.get("quiet"):
                         # (quiet steps are not observed: an observation between two updates is itself
@@ -259,7 +270,9 @@ class Run:
             except seams.HarnessError:
                 raise
             except Exception as e:  # noqa: BLE001
-                if S.fired.get("interrupt", 0) > fired0 and k in ("crev", "compile_check", "rank_prior"):
+                if S.fired.get("interrupt", 0) > fired0 and (k in ("crev", "compile_check", "rank_prior") or (k == "add" and op.get("rollback"))):
+                    # (for an add with rollback that got here the add itself had completed: the
+                    # interruption hit one of the read-only compilations of the oracle)
                     # an injected interruption of a solver call may surface as an exception of a read-only
                     # operation; what follows must be unaffected
                     S.probe("interrupted_ops")
@@ -304,7 +317,7 @@ def run_scenario(doc, full_trace=False):
             tw = Run(doc, S)
             tw.run("twin", [])
             rng = stream(doc["seed"], "faults")
-            cand = [(o, c) for (o, w, site), c in sorted(S.counts.items()) if site == "z3.check" and 0 <= o < len(doc["ops"]) and c > 0 and doc["ops"][o]["op"] in ("crev", "compile_check", "rank_prior")]
+            cand = [(o, c) for (o, w, site), c in sorted(S.counts.items()) if site == "z3.check" and 0 <= o < len(doc["ops"]) and c > 0 and (doc["ops"][o]["op"] in ("crev", "compile_check", "rank_prior") or (doc["ops"][o]["op"] == "add" and doc["ops"][o].get("rollback")))]
             seen = set()
             for _ in range(n):
                 if not cand:
@@ -593,6 +606,10 @@ def generate(prop, verif_seed, idx, tier="quick", cls=None):
     if cls == "interrupt":
         del doc["faults"]
         doc["fault_plan"] = {"n": g.choice([1, 2, 3])}
+        for op in ops:
+            if op["op"] == "add":
+                # if this add is interrupted, the caller rolls it back (remove the index) and goes on
+                op["rollback"] = True
     return doc
 
 
